@@ -69,7 +69,9 @@ void splEval(const json &in, json &out) {
   // Third pass ("churn"): the grid and the spline above are gone; a grid with as many points, every point moved by
   // one half, and the same coefficients on it are built in their place - most likely in the very same storage -
   // and evaluated at the moved abscissae.  What an evaluation returns must depend on the object alone, not on an
-  // object that lived at that address before (sequential runs only: in threaded runs the operands are shared).
+  // object that lived at that address before (sequential builds only: in the threaded builds the operands are shared
+  // and the per-thread logs are compared textually with a sequential log of the same binary).
+#ifndef VH_CONST_OPERANDS
   if (opCache().mode == 0) {
     const T half = static_cast<T>(1) / static_cast<T>(2);
     std::vector<T> pts = decVec<T>(ja.at("g"));
@@ -91,6 +93,7 @@ void splEval(const json &in, json &out) {
       }
     });
   }
+#endif
 }
 
 // SplUn: scalar operations, unary minus, predicates, cross-order assignment
